@@ -1,5 +1,6 @@
 import CppUModel.Proofs.AllocLayout
 import CppUModel.Proofs.AllocLayoutInv
+import CppUModel.Proofs.AllocLayoutCode
 /-!
 # C05 — tracked allocations return sound blocks for every size, or fail cleanly
 
@@ -1106,5 +1107,374 @@ example : OpOk defaultCfg {} (.malloc 5#64 (.block 1 (List.replicate 16 0)) (.bl
     fresh1 := fun b hb => nomatch hb
     fresh2 := fun b hb => nomatch hb
     differ := Or.inr (by decide) }
+
+/-! ## the statement lists REGENERATED from the current source are the model
+
+`Gen/AllocLayoutCode.lean` holds, statement by statement, the bodies of `allocMemory`,
+`storeLeakInformation`, `reallocateMemoryAndLeakInformation` and `reallocMemory` as the translator
+read them from the source at check time; `allocMemoryGen` / `reallocMemoryGen` execute them
+(`Model/AllocLayoutCode.lean`).  The theorems below make every theorem of this file a statement
+about what the source says: dropping, adding or reordering a statement changes the list and breaks
+them (the driver replays the implementation's traces through the lists, so the search for a failing
+input runs on the changed code's own model). -/
+open Gen.AllocLayoutCode
+
+/-- **`allocMemory` as the source has it = the hand model**: same events, same outcome, and (unless
+    the outcome is undefined behaviour) the same state, for every size, layout, configuration and
+    every answer of the allocator.  Only hypothesis: the allocator does not hand out a block that is
+    still live (needed where the source gives the data block back after a NULL node). -/
+theorem allocMemoryCode_eq (c : Cfg) (img : NodeImage) (s : State) (fam : Nat) (size : W) (sep0 : Bool) (a1 a2 : Ans)
+    (hf : a1.Fresh s.mem) :
+    Agree (allocMemoryGen c img s fam size sep0 a1 a2) (allocMemory c img s fam size sep0 a1 a2) :=
+  allocMemoryCode_agree c img s fam size sep0 a1 a2 hf
+
+/-- **`reallocMemory` as the source has it = the hand model** (including the table lookup, the
+    corruption check, the call of `reallocateMemoryAndLeakInformation`, the re-tracking branch after
+    a failed platform realloc), without any hypothesis. -/
+theorem reallocMemoryCode_eq (c : Cfg) (img : NodeImage) (s : State) (fam : Nat) (ptr : Option Nat) (size : W)
+    (sep0 : Bool) (ar : RAns) (a2 : Ans) :
+    Agree (reallocMemoryGen c img s fam ptr size sep0 ar a2) (reallocMemory c img s fam ptr size sep0 ar a2) :=
+  reallocMemoryCode_agree c img s fam ptr size sep0 ar a2
+
+/-- whenever the hand model does not reach undefined behaviour the two are EQUAL -/
+theorem agree_eq {x y : State × List Ev × Outcome} (h : Agree x y) (hu : y.2.2.isUb = false) : x = y := by
+  obtain ⟨h1, h2⟩ := h
+  exact Prod.ext (h2 hu) h1
+
+/-- Under the environment contract the regenerated `allocMemory` never writes outside a block and
+    never dereferences NULL, and is equal to the hand model (so `alloc_returns_sound_block`,
+    `alloc_failure_leaves_state`, `alloc_node_failure_leaves_state`, `layout_sound` … speak about it). -/
+theorem allocGen_sound (c : Cfg) (h : NodeOk c) (img : NodeImage) (hi : ImgOk c img) (s : State) (fam : Nat)
+    (size : W) (sep0 : Bool) (a1 a2 : Ans)
+    (h1 : a1.Ok (allocReq c (forcedSep c sep0) size).toNat) (h2 : a2.Ok c.node.toNat)
+    (hne : a2.isNull = true ∨ a2.id ≠ a1.id) (hf : a1.Fresh s.mem) :
+    (allocMemoryGen c img s fam size sep0 a1 a2).2.2.isUb = false ∧
+    allocMemoryGen c img s fam size sep0 a1 a2 = allocMemory c img s fam size sep0 a1 a2 := by
+  have hu := alloc_never_ub c h img hi s fam size sep0 a1 a2 h1 h2 hne
+  have he := agree_eq (allocMemoryCode_eq c img s fam size sep0 a1 a2 hf) hu
+  exact ⟨by rw [he]; exact hu, he⟩
+
+/-- The regenerated `reallocMemory` equals the hand model wherever the latter stays defined — in
+    particular on every step of a history that meets its contract (`history_never_ub`). -/
+theorem reallocGen_eq (c : Cfg) (img : NodeImage) (s : State) (fam : Nat) (ptr : Option Nat) (size : W)
+    (sep0 : Bool) (ar : RAns) (a2 : Ans) (hu : (reallocMemory c img s fam ptr size sep0 ar a2).2.2.isUb = false) :
+    reallocMemoryGen c img s fam ptr size sep0 ar a2 = reallocMemory c img s fam ptr size sep0 ar a2 :=
+  agree_eq (reallocMemoryCode_eq c img s fam ptr size sep0 ar a2) hu
+
+/-- … and it reaches undefined behaviour exactly when the hand model does (the listed finding
+    c05-node-alloc-null is a property of the source's statement list, not of the hand model only). -/
+theorem reallocGen_ub_iff (c : Cfg) (img : NodeImage) (s : State) (fam : Nat) (ptr : Option Nat) (size : W)
+    (sep0 : Bool) (ar : RAns) (a2 : Ans) :
+    (reallocMemoryGen c img s fam ptr size sep0 ar a2).2.2.isUb = (reallocMemory c img s fam ptr size sep0 ar a2).2.2.isUb := by
+  rw [(reallocMemoryCode_eq c img s fam ptr size sep0 ar a2).1]
+
+/-- the witness of c05-node-alloc-null on the regenerated list: `realloc(NULL, 10)`, node allocation NULL -/
+theorem reallocGen_node_null_ub :
+    (reallocMemoryGen defaultCfg (fun _ => List.replicate 64 0) {} famMalloc none 10#64 true
+      (.moved 1 (List.replicate 16 0)) .null).2.2.isUb = true := by decide
+
+example : allocMemoryGen defaultCfg img0 {} famNew 2#64 false (.block 1 (List.replicate 72 0)) .null =
+    allocMemory defaultCfg img0 {} famNew 2#64 false (.block 1 (List.replicate 72 0)) .null := by decide
+example : (allocMemoryGen defaultCfg img0 {} famMalloc 2#64 true (.block 1 (List.replicate 8 0)) .null).2 =
+    ([.ualloc 8#64 1, .unode 64#64 0, .ufree 1], .null) := by decide
+example : (reallocMemoryGen defaultCfg img1 (run defaultCfg img1 {} (demoOps.take 2)) famMalloc (some 1) 9#64 true
+      (.moved 3 ([104, 105, 0, 0, 0, 66, 65, 83] ++ List.replicate 8 0)) (.block 4 (List.replicate 64 0))).2.2 = .ptr 3 := by decide
+
+/-! ## a request succeeds exactly when it can be satisfied -/
+
+/-- **Converse of the failure theorems**: under the environment contract `allocMemory` hands out a
+    block IF AND ONLY IF the size is accepted (its bookkeeping-extended size fits `size_t`), the
+    allocator answered with a block and — in the separate-node layout — also with a node block.
+    No spurious failure, no spurious success. -/
+theorem alloc_succeeds_iff (c : Cfg) (h : NodeOk c) (img : NodeImage) (hi : ImgOk c img) (s : State) (fam : Nat)
+    (size : W) (sep0 : Bool) (a1 a2 : Ans)
+    (h1 : a1.Ok (allocReq c (forcedSep c sep0) size).toNat) (h2 : a2.Ok c.node.toNat)
+    (hne : a2.isNull = true ∨ a2.id ≠ a1.id) :
+    (∃ id, (allocMemory c img s fam size sep0 a1 a2).2.2 = .ptr id) ↔
+      (extNat c size.toNat < 2 ^ 64 ∧ a1.isNull = false ∧ (forcedSep c sep0 = true → a2.isNull = false)) := by
+  have hg := guard_iff_overflow c h size
+  constructor
+  · rintro ⟨id, hp⟩
+    cases hacc : rejectsAlloc c size
+    · have hlt : extNat c size.toNat < 2 ^ 64 := by
+        by_cases hx : extNat c size.toNat ≥ 2 ^ 64
+        · rw [hg.mpr hx] at hacc; cases hacc
+        · omega
+      cases a1 with
+      | null => simp [allocMemory, hacc] at hp
+      | fail => simp [allocMemory, hacc] at hp
+      | block bid bytes =>
+        refine ⟨hlt, rfl, ?_⟩
+        intro hsep
+        cases a2 with
+        | null => simp [allocMemory, hacc, hsep] at hp
+        | fail =>
+          rw [allocMemory_block_eq c img s fam size sep0 bid bytes _ hacc (by simp), hsep] at hp
+          simp [account] at hp
+        | block nid nb => rfl
+    · simp [allocMemory, hacc] at hp
+  · rintro ⟨hlt, hb, hn⟩
+    have hacc : rejectsAlloc c size = false := by
+      cases hr : rejectsAlloc c size
+      · rfl
+      · have := hg.mp hr; omega
+    cases a1 with
+    | null => simp [Ans.isNull] at hb
+    | fail => simp [Ans.isNull] at hb
+    | block bid bytes =>
+      obtain ⟨s', evs, he, _⟩ := alloc_returns_sound_block c h img hi s fam size sep0 bid bytes a2 hacc h1
+        (by
+          intro hsep
+          have hn' := hn hsep
+          cases a2 with
+          | null => simp [Ans.isNull] at hn'
+          | fail => simp [Ans.isNull] at hn'
+          | block nid nb =>
+            exact ⟨nid, nb, rfl, h2, by simpa [Ans.isNull, Ans.id] using hne⟩)
+      exact ⟨bid, by rw [he]⟩
+
+example : (∃ id, (allocMemory defaultCfg img0 {} famNew 2#64 false (.block 1 (List.replicate 72 0)) .null).2.2 = .ptr id) :=
+  ⟨1, by decide⟩
+
+/-! ## the global `operator new` / `operator delete` overloads and the C entry points (regenerated wiring) -/
+
+/-- Every global overload of `operator new`, `operator new[]`, `operator delete`, `operator delete[]`
+    in `MemoryLeakWarningPlugin.cpp` (plain, `(file, int line)`, `(file, size_t line)`, sized,
+    `std::nothrow`) forwards its own first argument (and file/line where the callee takes them) to the
+    function pointer of ITS family and form. -/
+theorem global_operators_dispatch :
+    forwarders.map (fun f => (f.overload, f.fptr, f.args)) =
+    [("new(size_t)", "operator_new_fptr", "$0"),
+     ("new(size_t,const char*,int)", "operator_new_debug_fptr", "$0,$1,(size_t)$2"),
+     ("new(size_t,const char*,size_t)", "operator_new_debug_fptr", "$0,$1,$2"),
+     ("delete(void*)", "operator_delete_fptr", "$0"),
+     ("delete(void*,const char*,int)", "operator_delete_fptr", "$0"),
+     ("delete(void*,const char*,size_t)", "operator_delete_fptr", "$0"),
+     ("delete(void*,size_t)", "operator_delete_fptr", "$0"),
+     ("new[](size_t)", "operator_new_array_fptr", "$0"),
+     ("new[](size_t,const char*,int)", "operator_new_array_debug_fptr", "$0,$1,(size_t)$2"),
+     ("new[](size_t,const char*,size_t)", "operator_new_array_debug_fptr", "$0,$1,$2"),
+     ("delete[](void*)", "operator_delete_array_fptr", "$0"),
+     ("delete[](void*,const char*,int)", "operator_delete_array_fptr", "$0"),
+     ("delete[](void*,const char*,size_t)", "operator_delete_array_fptr", "$0"),
+     ("delete[](void*,size_t)", "operator_delete_array_fptr", "$0"),
+     ("new(size_t,const std::nothrow_t&)", "operator_new_nothrow_fptr", "$0"),
+     ("delete(void*,const std::nothrow_t&)", "operator_delete_fptr", "$0"),
+     ("new[](size_t,const std::nothrow_t&)", "operator_new_array_nothrow_fptr", "$0"),
+     ("delete[](void*,const std::nothrow_t&)", "operator_delete_array_fptr", "$0")] := by decide
+
+/-- With the default (not thread safe) overloads switched on, every `operator new` overload reaches a
+    variant of the regenerated `mem_leak_operator_new*` table with the SAME array-ness (so the block is
+    recorded in the family its `delete` will check) that is a nothrow variant exactly for the
+    `std::nothrow` overloads; every `operator delete` overload reaches the delete of ITS array-ness. -/
+theorem overloads_reach_matching_variant :
+    (∀ f ∈ forwarders, f.isDelete = false →
+      ∃ v, f.target.bind findVariant = some v ∧ NewVariant.array v = f.array ∧
+        NewVariant.nothrow v = (f.overload == "new(size_t,const std::nothrow_t&)" || f.overload == "new[](size_t,const std::nothrow_t&)")) ∧
+    (∀ f ∈ forwarders, f.isDelete = true →
+      f.target = some (if f.array then "mem_leak_operator_delete_array" else "mem_leak_operator_delete")) := by
+  decide
+
+/-- The one-line C entry points forward every argument in order: `cpputest_malloc/strdup/strndup/
+    calloc/realloc/free` to their `_location` forms, `cpputest_realloc_location` / `cpputest_free_location`
+    and the three `…_with_leak_detection` functions to the switched function pointers, which the default
+    overloads point at `mem_leak_malloc/realloc/free`. -/
+theorem c_entry_points_forward :
+    cForwarders =
+    [("cpputest_malloc", "cpputest_malloc_location", "$0,'<unknown>',0"),
+     ("cpputest_strdup", "cpputest_strdup_location", "$0,'<unknown>',0"),
+     ("cpputest_strndup", "cpputest_strndup_location", "$0,$1,'<unknown>',0"),
+     ("cpputest_calloc", "cpputest_calloc_location", "$0,$1,'<unknown>',0"),
+     ("cpputest_realloc", "cpputest_realloc_location", "$0,$1,'<unknown>',0"),
+     ("cpputest_free", "cpputest_free_location", "$0,'<unknown>',0"),
+     ("cpputest_realloc_location", "cpputest_realloc_location_with_leak_detection", "$0,$1,$2,$3"),
+     ("cpputest_free_location", "cpputest_free_location_with_leak_detection", "$0,$1,$2"),
+     ("cpputest_malloc_location_with_leak_detection", "malloc_fptr", "$0,$1,$2"),
+     ("cpputest_realloc_location_with_leak_detection", "realloc_fptr", "$0,$1,$2,$3"),
+     ("cpputest_free_location_with_leak_detection", "free_fptr", "$0,$1,$2")] ∧
+    (defaultOverloads.filter (fun p => p.1 == "malloc_fptr" || p.1 == "realloc_fptr" || p.1 == "free_fptr")) =
+      [("malloc_fptr", "mem_leak_malloc"), ("realloc_fptr", "mem_leak_realloc"), ("free_fptr", "mem_leak_free")] := by
+  decide
+
+/-- The small bodies the model takes for granted, exactly as the source has them: the default
+    allocator's `alloc_memory` is `checkedMalloc` (platform NULL → test failure `FAIL`, never a NULL
+    answer), its node allocation goes through `alloc_memory`, `free_memory` is the platform free;
+    `NullUnknownAllocator` answers NULL and frees nothing; `CrashOnAllocationAllocator` is the default
+    allocator unless the allocation number matches; the 3-argument `allocMemory` / `deallocMemory`
+    forward to the 5-argument ones with the caller's layout flag. -/
+theorem one_line_bodies :
+    oneLiners =
+    [("MemoryLeakDetector::allocMemory/3", "returnallocMemory(allocator,size,UNKNOWN,0,allocatNodesSeperately);"),
+     ("MemoryLeakDetector::deallocMemory/3", "deallocMemory(allocator,(char*)memory,UNKNOWN,0,allocatNodesSeperately);"),
+     ("checkedMalloc", "char*mem=(char*)PlatformSpecificMalloc(size);if(mem==NULLPTR)FAIL('mallocreturnednullpointer');returnmem;"),
+     ("TestMemoryAllocator::alloc_memory", "returncheckedMalloc(size);"),
+     ("TestMemoryAllocator::free_memory", "PlatformSpecificFree(memory);"),
+     ("TestMemoryAllocator::allocMemoryLeakNode", "returnalloc_memory(size,'MemoryLeakNode',1);"),
+     ("TestMemoryAllocator::freeMemoryLeakNode", "free_memory(memory,0,'MemoryLeakNode',1);"),
+     ("NullUnknownAllocator::alloc_memory", "returnNULLPTR;"),
+     ("NullUnknownAllocator::free_memory", ""),
+     ("CrashOnAllocationAllocator::alloc_memory",
+      "if(MemoryLeakWarningPlugin::getGlobalDetector()->getCurrentAllocationNumber()==allocationToCrashOn_)UT_CRASH();returnTestMemoryAllocator::alloc_memory(size,file,line);")] := by
+  rfl
+
+/-- **The thread-safe entry points are the same functions behind a lock**: each of the eleven
+    `threadsafe_mem_leak_*` functions is `MemLeakScopedMutex lock;` followed by the very body of its
+    plain twin (same allocator getter, same layout flag, same `UT_THROW_BAD_ALLOC_WHEN_NULL`), and
+    `turnOnThreadSafeNewDeleteOverloads` points every function pointer at the twin of the function
+    the default switch points it at.  So every theorem about `operatorNew`, `cMalloc`, `cRealloc`,
+    `cFree`, `operatorDelete` holds in thread-safe mode too (that the lock is taken and released
+    properly is C10's subject; the harness runs the `tsafe` stream in this mode). -/
+theorem threadsafe_twins_same_body : ∀ p ∈ threadsafeTwins, p.2 = true := by decide
+
+theorem threadsafe_switch_points_at_twins :
+    threadsafeOverloads = defaultOverloads.map (fun p => (p.1, "threadsafe_" ++ p.2)) ∧
+    (∀ p ∈ defaultOverloads, p.2 ∈ threadsafeTwins.map (·.1)) := by decide
+
+/-! ## the release path as the source has it -/
+
+/-- **`deallocMemory` as the source has it = the hand model**: the statement list regenerated from
+    `MemoryLeakDetector::deallocMemory` (NULL test, table removal, the report for an unknown pointer,
+    the forced separate layout of the build without guard bytes, and — inside
+    `if (!allocator->hasBeenDestroyed())`, taken for allocators that outlive the history — reading the
+    size, `checkForCorruption`, `free_memory` with the caller's pointer) computes exactly `deallocMemory`. -/
+theorem deallocMemoryCode_eq (c : Cfg) (s : State) (fam : Nat) (ptr : Option Nat) (sep0 : Bool) :
+    Agree (deallocMemoryGen c s fam ptr sep0) (deallocMemory c s fam ptr sep0) :=
+  deallocMemoryCode_agree c s fam ptr sep0
+
+/-- `mem_leak_free` / `operator delete` with the regenerated `deallocMemory` equal the hand model
+    wherever the latter stays defined … -/
+theorem releaseGen_eq (c : Cfg) (s : State) (fam : Nat) (ptr : Option Nat) (sep0 : Bool)
+    (hu : (release c s fam ptr sep0).2.2.isUb = false) :
+    releaseGen c s fam ptr sep0 = release c s fam ptr sep0 := by
+  unfold releaseGen release at *
+  cases hi : invalidateMemory s ptr with
+  | none => rfl
+  | some s1 =>
+    rw [hi] at hu
+    exact agree_eq (deallocMemoryCode_eq c s1 fam ptr sep0) hu
+
+/-- … in particular **releasing any tracked block of any reachable state with the release function of
+    its family**: the regenerated code frees exactly that block, with the caller's own pointer, once
+    (`release_exact` transferred to the source's statement list). -/
+theorem releaseGen_exact (c : Cfg) (hn : NodeOk c) (s : State) (h : Inv c s) (r : Rec) (hr : r ∈ s.tracked)
+    (sep0 : Bool) (hsep0 : sep0 = (r.fam == famMalloc)) :
+    ∃ s' rest, releaseGen c s r.fam (some r.id) sep0 =
+        (s', (if r.sep then [.unodefree r.nodeId] else []) ++ [.ufree r.id], .null) ∧
+      removeRec s.tracked r.id = some (r, rest) ∧ s'.tracked = rest ∧
+      findBlock s'.mem r.id = none ∧ Inv c s' := by
+  obtain ⟨s', rest, he, hrem, ht, h1, _, _, hinv⟩ := release_exact c hn s h r hr sep0 hsep0
+  refine ⟨s', rest, ?_, hrem, ht, h1, hinv⟩
+  rw [releaseGen_eq c s r.fam (some r.id) sep0 (by rw [he]; rfl), he]
+
+example : (releaseGen defaultCfg (run defaultCfg img1 {} (demoOps.take 3)) famMalloc (some 3) true).2 =
+    ([.unodefree 4, .ufree 3], .null) := by decide
+
+/-! ## whole histories through the regenerated code -/
+
+/-- a wrapper that passes undefined behaviour of its callee through cannot be defined where the callee is not -/
+theorem thenWrite_ub (r : State × List Ev × Outcome) (off : Nat) (src : List UInt8) (why : String)
+    (h : r.2.2.isUb = true) : (thenWrite r off src why).2.2.isUb = true := by
+  rcases r with ⟨s1, evs, o⟩
+  cases o <;> simp_all [thenWrite, Outcome.isUb]
+
+/-- **One public operation executed by the statement lists of the current source is the model's
+    step**, in every state that satisfies the invariant and for every operation that meets its
+    contract (`OpOk`). -/
+theorem stepGen_eq (c : Cfg) (hn : NodeOk c) (img : NodeImage) (hi : ImgOk c img) (s : State) (h : Inv c s)
+    (op : Op) (hop : OpOk c s op) : stepGen c img s op = step c img s op := by
+  have hnu := (step_preserves_inv c hn img hi s h op hop).2
+  cases op with
+  | new v size a1 a2 =>
+    have hag := allocMemoryCode_eq c img s (if v.array then famNewArray else famNew) size false a1 a2 hop.2.1.fresh1
+    show operatorNewGen c img s v size a1 a2 = operatorNew c img s v size a1 a2
+    have hnu' : (operatorNew c img s v size a1 a2).2.2.isUb = false := hnu
+    unfold operatorNewGen operatorNew at *
+    generalize allocMemory c img s (if v.array then famNewArray else famNew) size false a1 a2 = y at *
+    generalize allocMemoryGen c img s (if v.array then famNewArray else famNew) size false a1 a2 = x at *
+    cases hy : y.2.2.isUb
+    · have hx := agree_eq hag hy; subst hx; rfl
+    · exfalso; rcases y with ⟨s1, evs, o⟩; cases o <;> simp_all [Outcome.isUb]
+  | malloc size a1 a2 =>
+    have hag := allocMemoryCode_eq c img s famMalloc size true a1 a2 hop.fresh1
+    exact agree_eq hag hnu
+  | calloc num size a1 a2 =>
+    have hag := allocMemoryCode_eq c img s famMalloc (callocRequest num size) true a1 a2 hop.fresh1
+    show cCallocGen c img s num size a1 a2 = cCalloc c img s num size a1 a2
+    have hnu' : (cCalloc c img s num size a1 a2).2.2.isUb = false := hnu
+    unfold cCallocGen cCalloc cMallocGen cMalloc at *
+    generalize allocMemory c img s famMalloc (callocRequest num size) true a1 a2 = y at *
+    generalize allocMemoryGen c img s famMalloc (callocRequest num size) true a1 a2 = x at *
+    split
+    · rfl
+    · next ht =>
+      cases hy : y.2.2.isUb
+      · have hx := agree_eq hag hy; subst hx; rfl
+      · exfalso; rcases y with ⟨s1, evs, o⟩; cases o <;> simp_all [Outcome.isUb]
+  | strdup buf a1 a2 =>
+    show cStrdupGen c img s buf a1 a2 = cStrdup c img s buf a1 a2
+    have hnu' : (cStrdup c img s buf a1 a2).2.2.isUb = false := hnu
+    unfold cStrdupGen cStrdup at *
+    cases hl : cstrlen buf with
+    | none => rfl
+    | some len =>
+      simp only [hl] at hnu' ⊢
+      have hag := allocMemoryCode_eq c img s famMalloc (strdupLength (BitVec.ofNat 64 len)) true a1 a2 hop.2.2.fresh1
+      unfold strdupAllocGen strdupAlloc cMallocGen cMalloc at *
+      generalize allocMemory c img s famMalloc (strdupLength (BitVec.ofNat 64 len)) true a1 a2 = y at *
+      generalize allocMemoryGen c img s famMalloc (strdupLength (BitVec.ofNat 64 len)) true a1 a2 = x at *
+      cases hy : y.2.2.isUb
+      · have hx := agree_eq hag hy; subst hx; rfl
+      · exfalso
+        split at hnu'
+        · rcases y with ⟨s1, evs, o⟩; cases o <;> simp_all [Outcome.isUb]
+        · have := thenWrite_ub _ ((strdupLength (BitVec.ofNat 64 len)) - 1).toNat [0] "terminator outside the block"
+            (thenWrite_ub y 0 (buf.take (strdupLength (BitVec.ofNat 64 len)).toNat) "memcpy outside the block" hy)
+          rw [this] at hnu'; cases hnu'
+  | strndup buf n a1 a2 =>
+    show cStrndupGen c img s buf n a1 a2 = cStrndup c img s buf n a1 a2
+    have hnu' : (cStrndup c img s buf n a1 a2).2.2.isUb = false := hnu
+    unfold cStrndupGen cStrndup at *
+    cases hl : cstrlen buf with
+    | none => rfl
+    | some len =>
+      simp only [hl] at hnu' ⊢
+      have hag := allocMemoryCode_eq c img s famMalloc (strndupLength (BitVec.ofNat 64 len) n) true a1 a2 hop.2.2.fresh1
+      unfold strdupAllocGen strdupAlloc cMallocGen cMalloc at *
+      generalize allocMemory c img s famMalloc (strndupLength (BitVec.ofNat 64 len) n) true a1 a2 = y at *
+      generalize allocMemoryGen c img s famMalloc (strndupLength (BitVec.ofNat 64 len) n) true a1 a2 = x at *
+      cases hy : y.2.2.isUb
+      · have hx := agree_eq hag hy; subst hx; rfl
+      · exfalso
+        split at hnu'
+        · rcases y with ⟨s1, evs, o⟩; cases o <;> simp_all [Outcome.isUb]
+        · have := thenWrite_ub _ ((strndupLength (BitVec.ofNat 64 len) n) - 1).toNat [0] "terminator outside the block"
+            (thenWrite_ub y 0 (buf.take (strndupLength (BitVec.ofNat 64 len) n).toNat) "memcpy outside the block" hy)
+          rw [this] at hnu'; cases hnu'
+  | realloc ptr size ar a2 => exact reallocGen_eq c img s famMalloc ptr size true ar a2 hnu
+  | free ptr => exact releaseGen_eq c s famMalloc ptr true hnu
+  | delete array ptr => exact releaseGen_eq c s (if array then famNewArray else famNew) ptr false hnu
+  | write id off src => rfl
+
+/-- **Every history executed by the statement lists of the current source is the model's history**:
+    same states all along — hence (`history_inv`, `history_never_ub`, `inv_meaning`) every state the
+    SOURCE's code reaches from the empty detector under the platform contract has pairwise different,
+    live, exactly-sized tracked blocks with intact guard bytes, and no operation of the source's code
+    writes outside a block or dereferences NULL. -/
+theorem history_gen_eq (c : Cfg) (hn : NodeOk c) (img : NodeImage) (hi : ImgOk c img) :
+    ∀ (ops : List Op) (s : State), Inv c s → OpsOk c img s ops → runGen c img s ops = run c img s ops
+  | [], _, _, _ => rfl
+  | op :: ops, s, h, hok => by
+    have he := stepGen_eq c hn img hi s h op hok.1
+    show runGen c img (stepGen c img s op).1 ops = run c img (step c img s op).1 ops
+    rw [he]
+    exact history_gen_eq c hn img hi ops _ (step_preserves_inv c hn img hi s h op hok.1).1 hok.2
+
+/-- the invariant for the states the source's code reaches -/
+theorem history_gen_inv (c : Cfg) (hn : NodeOk c) (img : NodeImage) (hi : ImgOk c img) (ops : List Op)
+    (hok : OpsOk c img {} ops) : Inv c (runGen c img {} ops) := by
+  rw [history_gen_eq c hn img hi ops {} (inv_empty c) hok]
+  exact history_inv c hn img hi ops hok
+
+example : (runGen defaultCfg img1 {} demoOps).tracked = [] := by decide
 
 end AllocLayout
